@@ -48,6 +48,7 @@ void Executor::runState(StateP sp) {
     if (s.stack.empty()) {
         pathsDone++;
         if (s.assertedSomething) pathsWithSymAssert++;
+        if (s.assertedAny) pathsWithAssert++;
         for (auto &l : s.reached) reachCount[l]++;
         if (opt.concrete) concreteTraces.push_back(s.trace);
         if (!s.trace.empty() && pathTraces.size() < 8) pathTraces.push_back(s.trace);
@@ -173,7 +174,7 @@ int main(int argc, char **argv) {
     o << " \"inconclusive_reason\":\"" << jesc(ex.inconclusiveWhy) << "\",\n";
     o << " \"paths_completed\":" << ex.pathsDone << ",\"paths_assumed_away\":" << ex.pathsKilledAssume << ",\"paths_engine_error\":" << ex.pathsError
       << ",\"paths_budget\":" << ex.pathsBudget << ",\"paths_pending\":" << ex.work.size() << ",\"forks\":" << ex.forks << ",\n";
-    o << " \"paths_with_symbolic_assert\":" << ex.pathsWithSymAssert << ",\"asserts_checked\":" << ex.assertsChecked << ",\"asserts_symbolic\":" << ex.assertsSymbolic << ",\n";
+    o << " \"paths_with_assert\":" << ex.pathsWithAssert << ",\"paths_with_symbolic_assert\":" << ex.pathsWithSymAssert << ",\"asserts_checked\":" << ex.assertsChecked << ",\"asserts_symbolic\":" << ex.assertsSymbolic << ",\n";
     o << " \"instructions\":" << ex.totalInsns << ",\n";
     o << " \"queries\":{\"total\":" << ex.qTotal << ",\"sat\":" << ex.qSat << ",\"unsat\":" << ex.qUnsat << ",\"unknown\":" << ex.qUnknown << ",\"decided_from_path_facts\":" << ex.qCached << ",\"fp_bitblast\":" << ex.qHeavy << ",\"decided_by\":{\"bitblast_sat\":" << ex.stratWins[0] << ",\"qffpbv\":" << ex.stratWins[1] << ",\"smt\":" << ex.stratWins[2] << "}" << ",\"slowest_s\":" << ex.slowestQ << "},\"solver_s\":" << ex.solverS << ",\"wall_s\":" << ex.elapsed() << ",\n";
     o << " \"reach\":{";
